@@ -106,8 +106,11 @@ func (g *gen) join(realm int, allFeatures bool) int {
 		"call_timeout": f["call_timeout"], "caller_identification": f["caller_identification"],
 		"progressive_call_invocations": f["progressive_call_invocations"]}
 	caller := map[string]bool{"progressive_call_invocations": allFeatures || g.chance(0.5), "call_canceling": true}
-	g.feats[s] = map[string]bool{"caller_prog": caller["progressive_call_invocations"]}
-	roles := Dict(KV{"subscriber", feat(sub)}, KV{"publisher", feat(map[string]bool{"publisher_exclusion": true})},
+	ppt := allFeatures || g.chance(0.6)
+	callee["payload_passthru_mode"] = allFeatures || g.chance(0.6)
+	caller["payload_passthru_mode"] = ppt
+	g.feats[s] = map[string]bool{"caller_prog": caller["progressive_call_invocations"], "ppt": ppt}
+	roles := Dict(KV{"subscriber", feat(sub)}, KV{"publisher", feat(map[string]bool{"publisher_exclusion": true, "payload_passthru_mode": ppt})},
 		KV{"callee", feat(callee)}, KV{"caller", feat(caller)})
 	hello := Dict(KV{"roles", roles})
 	local := g.chance(0.7) || allFeatures
@@ -291,6 +294,29 @@ func (g *gen) junk() Val {
 	}
 }
 
+// pptOpts adds payload passthru options: mostly by sessions that announced
+// the feature (a violation aborts the session), with odd value types.
+func (g *gen) pptOpts(s int, o *Val, p float64) {
+	if !g.chance(p) {
+		return
+	}
+	if !g.feats[s]["ppt"] && !g.chance(0.08) {
+		return
+	}
+	scheme := []Val{Str("x_custom"), Str("mqtt"), Str(""), URI("x_uri"), Int('l', 5)}[g.r.IntN(5)]
+	o.D = append(o.D, KV{"ppt_scheme", scheme})
+	if g.chance(0.6) {
+		o.D = append(o.D, KV{"ppt_serializer", []Val{Str("json"), Int('l', 5), Bytes("cbor"), Null()}[g.r.IntN(4)]})
+	}
+	if g.chance(0.3) {
+		o.D = append(o.D, KV{"ppt_cipher", []Val{Str("xsalsa20poly1305"), Bool(true)}[g.r.IntN(2)]})
+	}
+	if g.chance(0.3) {
+		o.D = append(o.D, KV{"ppt_keyid", []Val{Str("key1"), List(Str("k"))}[g.r.IntN(2)]})
+	}
+	g.tag("payload-passthru")
+}
+
 func (g *gen) opPublish() {
 	s, ok := g.anySess()
 	if !ok {
@@ -362,6 +388,7 @@ func (g *gen) opPublish() {
 		o.D = append(o.D, KV{g.pick([]string{"eligible_authid", "eligible_authrole", "eligible_dept"}), attrList()})
 		g.tag("eligible-attr")
 	}
+	g.pptOpts(s, &o, 0.08)
 	args, kw := g.payload()
 	g.msg(s, &Msg{Kind: "pub", Req: g.nextReq(s), Opts: o, URI: uri, Args: args, Kw: kw})
 }
@@ -475,6 +502,7 @@ func (g *gen) opCall() {
 			}
 		}
 	}
+	g.pptOpts(s, &o, 0.08)
 	args, kw := g.payload()
 	g.calls = append(g.calls, callRec{s, req})
 	g.msg(s, &Msg{Kind: "call", Req: req, Opts: o, URI: uri, Args: args, Kw: kw})
@@ -551,6 +579,7 @@ func (g *gen) opYield() {
 		final = false
 		g.tag("progressive-result")
 	}
+	g.pptOpts(s, &o, 0.08)
 	args, kw := g.payload()
 	if g.chance(0.25) {
 		g.msg(s, &Msg{Kind: "err", ErrType: 68, Ref: ref, ErrURI: g.pick([]string{"app.error", "wamp.error.canceled", "wamp.error.invalid_argument"}), Args: args, Kw: kw, Final: ref.Sess == s})
